@@ -273,7 +273,7 @@ def gen_scenario(root, profile=None):
             sched["grace_period"] = 1
             sched["probability_sh"] = r.choice([0.0, 0.25, 0.9])
         if kind in PAUSE_RESUME or sched.get("hb_type") == "promotion":
-            if r.chance(0.3):
+            if r.chance(p.get("p_early_removal", 0.3)):
                 sched["early_ckpt_removal"] = {"max_num_checkpoints": r.randint(1, 4)}
     elif kind in ("sync_hb", "sync_hb_bo", "dehb"):
         sched["brackets"] = r.choice([None, 1, 2, 3])
